@@ -187,6 +187,8 @@ def rewrite(e, fn, depth=0):
     elif ne[0] == "field" and isinstance(ne[1], tuple) and ne[1][0] == "downcast" and isinstance(ne[1][1], tuple) and ne[1][1][0] == "agg" \
             and ne[1][1][1] == "adt" and ne[1][1][2].endswith("::" + str(ne[1][2])) and isinstance(ne[2], int) and ne[2] < len(ne[1][1][3]):
         ne = ne[1][1][3][ne[2]]
+    elif ne[0] == "someof" and isinstance(ne[1], tuple) and ne[1][0] == "agg" and ne[1][1] == "adt" and ne[1][2] in ("Option::Some", "Result::Ok") and len(ne[1][3]) == 1:
+        ne = ne[1][3][0]
     r = fn(ne)
     return ne if r is None else r
 
@@ -369,16 +371,14 @@ class Body:
                         return ("binop", e[1][:-len("WithOverflow")], e[2], e[3])
                     return ("overflowed", e)
                 if e[0] == "downcast" and e[2] in ("Some", "Ok") and i == 0:
+                    x = e[1]
+                    if x[0] == "call" and x[2] == "std::iter::Iterator::next" and x[3]:
+                        ch = self.chain_elem(x[3][0], x[1])
+                        if ch is not None:
+                            return ch[0]
+                    if x[0] == "agg" and x[1] == "adt" and x[2] in ("Option::Some", "Result::Ok") and len(x[3]) == 1:
+                        return x[3][0]      # the payload of a Some / Ok built right here (an inlined helper's `Some(error)` argument)
                     return ("someof", e[1])
-                if e[0] == "someof" and e[1][0] == "call" and e[1][2] == "std::iter::Iterator::next" and e[1][3] and i in (0, 1):
-                    # `for (j, x) in xs.iter().enumerate()`: j ranges over 0..len(xs) and x is xs[j] - the same loop as
-                    # `for j in 0..xs.len() { let x = &xs[j]; .. }`, which is the shape the loop lemmas know
-                    it = e[1][3][0]
-                    if it[0] == "call" and it[2] == "std::iter::Iterator::enumerate" and len(it[3]) == 1:
-                        xs = it[3][0]
-                        j = ("someof", ("call", e[1][1], "std::iter::Iterator::next",
-                                        (("agg", "adt", "Range::Range", (("const", "usize", "0_usize", 0), ("call", it[1], "<[T]>::len", (xs,)))),)))
-                        return j if i == 0 else ("index", xs, j)
                 return ("field", e, i)
             if k == "d":
                 name = el[1] if el[1] else str(el[2])
@@ -389,6 +389,73 @@ class Body:
                 return ("index", e, self.origin_local(el[1]))
             return ("field", e, str(el))
         return e
+
+    # -------- lazy iterator chains over a slice (`xs.iter().enumerate().filter(c1).filter_map(c2)`)
+    CHAIN_PURE = ("std::ops::Deref::deref", "std::clone::Clone::clone", "std::cmp::PartialEq::eq", "std::cmp::PartialEq::ne",
+                  "std::cmp::PartialOrd::lt", "std::cmp::PartialOrd::le", "std::cmp::PartialOrd::gt", "std::cmp::PartialOrd::ge",
+                  "std::option::Option::<T>::as_ref", "std::option::Option::<T>::cloned", "std::option::Option::<T>::is_some",
+                  "std::option::Option::<T>::is_none", "std::sync::Arc::<T, A>::ptr_eq")
+
+    def _pure_closure_ret(self, cdef, arg):
+        """Return expression of a closure that is one straight line of pure calls (loads, clones, comparisons), with its
+        argument replaced by `arg`; None if the closure is anything else."""
+        cb = self.prog.bodies.get(cdef)
+        if cb is None or cb.kind != "closure" or cb.arg_count != 2:
+            return None
+        for blk in cb.blocks.values():
+            if blk["cleanup"]:
+                continue
+            t = blk["term"]
+            if t["k"] in ("switch", "yield", "assert"):
+                return None
+            if t["k"] == "call":
+                d = t["callee"].get("def") or ""
+                m = ATOMIC_RE.match(d)
+                m2 = ARCSWAP_RE.match(d)
+                if not (d in self.CHAIN_PURE or (m and m.group(1) == "load") or (m2 and m2.group(1) in ("load", "load_full"))):
+                    return None
+        r = cb.origin_local(0)
+        par = ("param", cdef, 2)
+        return rewrite(r, lambda x: arg if x == par else None)
+
+    def chain_elem(self, it, site):
+        """For `next(it)` with `it` a chain of enumerate / filter / filter_map over a slice: (element expression, guards that
+        hold when an element is produced [(cond, switch value)], the slice).  The index is spelled like the loop variable of
+        `for j in 0..xs.len()`, which is the shape the loop lemmas know.  None: not such a chain (nothing is assumed)."""
+        if it[0] != "call" or not it[3]:
+            return None
+        d = it[2]
+        if d == "std::iter::Iterator::enumerate" and len(it[3]) == 1:
+            xs = it[3][0]
+            if xs[0] == "call" and (xs[2].startswith("std::iter::") or xs[2].startswith("core::iter::")):
+                return None         # enumerate over another adaptor (skip, rev, take, zip, ..): positions are not indices
+            j = ("someof", ("call", site, "std::iter::Iterator::next",
+                            (("agg", "adt", "Range::Range", (("const", "usize", "0_usize", 0), ("call", it[1], "<[T]>::len", (xs,)))),)))
+            return (("agg", "tuple", "", (j, ("index", xs, j))), [], xs)
+        if d == "std::iter::Iterator::map" and len(it[3]) == 2:
+            inner = self.chain_elem(it[3][0], site)
+            c = it[3][1]
+            if inner is None or not (c[0] == "agg" and c[1] == "closure"):
+                return None
+            r = self._pure_closure_ret(c[2], inner[0])
+            if r is None:
+                return None
+            self.prog.chain_closures.add(c[2])
+            return (r, inner[1], inner[2])
+        if d in ("std::iter::Iterator::filter", "std::iter::Iterator::filter_map") and len(it[3]) == 2:
+            inner = self.chain_elem(it[3][0], site)
+            c = it[3][1]
+            if inner is None or not (c[0] == "agg" and c[1] == "closure"):
+                return None
+            elem, guards, xs = inner
+            r = self._pure_closure_ret(c[2], elem)
+            if r is None:
+                return None
+            self.prog.chain_closures.add(c[2])
+            if d.endswith("::filter"):
+                return (elem, guards + [(r, 1)], xs)
+            return (("someof", r), guards + [(("discr", r), 1)], xs)
+        return None
 
     def operand_expr(self, o):
         if "copy" in o:
@@ -426,6 +493,8 @@ class Body:
             ak = rv["ak"]
             if ak == "adt":
                 name = rv["adt"].split("::")[-1] + "::" + rv["variant"]
+                if "vi" in rv:
+                    VARIANT_INDEX[name] = rv["vi"]
                 if rv["adt"] == "core::Callbag" and len(ops) == 1:
                     # the newtype around the boxed handler is transparent, like Callbag::from / Callbag::deref (CEN-core)
                     return ops[0]
@@ -443,6 +512,9 @@ class Body:
         if "def" not in c:
             return ("call", site, "<indirect>", args)
         d = c["def"]
+        if d == "std::iter::Iterator::map" and len(args) == 2 and args[1][0] == "agg" and args[1][1] == "closure" \
+                and args[0][0] == "call" and self.chain_elem(args[0], site) is not None:
+            return ("call", site, d, args)     # a projection inside a lazy chain over a slice: chain_elem applies the closure
         if d in ALIAS_CALLEES and len(args) > ALIAS_CALLEES[d]:
             return args[ALIAS_CALLEES[d]]
         if d == "std::clone::Clone::clone":
@@ -474,8 +546,8 @@ class Body:
         m = ARCSWAP_RE.match(d)
         if m:
             op = m.group(1)
-            if op in ("load", "load_full", "swap"):
-                return ("cellload", args[0], site)      # swap hands back what the cell held
+            if op in ("load", "load_full", "swap", "rcu"):
+                return ("cellload", args[0], site)      # swap and rcu hand back what the cell held before
             if op in ("store",):
                 return ("unit",)
             return ("call", site, d, args)
@@ -497,6 +569,7 @@ class Program:
             import inline
             self.inlined = inline.inline_local_calls(self.raw)
         self.inlined_closures = set(self.raw.get("inlined_closures", []))
+        self.chain_closures = set()     # pure closures of recognised lazy iterator chains (Body.chain_elem), absorbed into the loop
         self.statics = self.raw["statics"]
         self.bodies = {}
         for rb in self.raw["bodies"]:
@@ -565,6 +638,9 @@ class Program:
         # field of a linked aggregate
         if e[0] == "field" and isinstance(e[1], tuple) and e[1][0] == "agg" and isinstance(e[2], int) and e[2] < len(e[1][3]):
             return e[1][3][e[2]]
+        # the payload of a Some / Ok this very code built
+        if e[0] == "someof" and isinstance(e[1], tuple) and e[1][0] == "agg" and e[1][1] == "adt" and e[1][2] in ("Option::Some", "Result::Ok") and len(e[1][3]) == 1:
+            return e[1][3][0]
         return e
 
 
@@ -867,6 +943,7 @@ def message_discr(body, e):
     return e[0] == "discr" and e[1] == ("param", body.id, 2)
 
 
+VARIANT_INDEX = {"Option::None": 0, "Option::Some": 1, "Result::Ok": 0, "Result::Err": 1}     # aggregate name -> variant index (filled from the facts)
 STEP_LIMIT = 300000        # block visits per arm enumeration; the largest arm of the pinned tree needs 481 (40 paths) at thorough depth
 STATS = {}
 
@@ -1044,8 +1121,16 @@ def enumerate_paths(prog, body, variant=None, entry=0, max_visits=2, inline=1, l
                     for ev in events:
                         if ev[0] == "set":
                             last[ev[1]] = ev[2]
+                    depth_res = [0]
                     def _res(x):
                         if x[0] == "phi" and len(x) > 2 and x[2] in last:
+                            # the assigned value may itself mention other multi-assigned locals (an Option built from an Option)
+                            if depth_res[0] < 6:
+                                depth_res[0] += 1
+                                try:
+                                    return rewrite(last[x[2]], _res)
+                                finally:
+                                    depth_res[0] -= 1
                             return last[x[2]]
                         if x[0] == "flag" and x[1] == body.id and x[2] in env:
                             # bool locals that only ever hold constants (drop flags, `let done = matches!(..)`) are tracked in env
@@ -1063,6 +1148,15 @@ def enumerate_paths(prog, body, variant=None, entry=0, max_visits=2, inline=1, l
                     tgt = t["otherwise"]
                     for v, b in t["targets"]:
                         if v == cond[3]:
+                            tgt = b
+                    bid = tgt
+                    continue
+                if cond[0] == "discr" and cond[1][0] == "agg" and cond[1][1] == "adt" and cond[1][2] in VARIANT_INDEX:
+                    # the discriminant of a value this very path built (`end(Some(error))` inlined into the Error arm): decided
+                    vi0 = VARIANT_INDEX[cond[1][2]]
+                    tgt = t["otherwise"]
+                    for v, b in t["targets"]:
+                        if v == vi0:
                             tgt = b
                     bid = tgt
                     continue
@@ -1084,6 +1178,12 @@ def enumerate_paths(prog, body, variant=None, entry=0, max_visits=2, inline=1, l
                     if body.blocks[b]["term"]["k"] == "unreachable" and not body.blocks[b]["stmts"]:
                         continue
                     excl = tuple(x for x, _ in t["targets"]) if v == "otherwise" else ()
+                    if v == 1 and de[0] == "discr" and de[1][0] == "call" and de[1][2] == "std::iter::Iterator::next" and de[1][3]:
+                        ch = body.chain_elem(de[1][3][0], de[1][1])
+                        if ch is not None and ch[1]:
+                            ev2 = events + [("br", cond, v, excl, (body.id, bid))] + [("br", prog.link(g), gv, (), (body.id, bid)) for g, gv in ch[1]]
+                            go(b, env, visits, ev2, blocks, last_state)
+                            continue
                     if int_switch:
                         # `match n { 0 => .., _ => .. }` on an integer: the decision is an equality with the arm's constant
                         # (for the catch-all arm: the inequality with the first listed constant)
